@@ -403,6 +403,17 @@ func c10Run(p *harness.Proxy, binary bool, port int, prog c10Program, tier int, 
 		res.Inconcl = "target: " + err.Error()
 		return res
 	}
+	// the sentinel that follows every command was answered, so the connection lives on: the
+	// faulted request itself must have been answered too (terminator or error reply). A client
+	// without a sentinel would wait for ever otherwise.
+	if obs.Class != "closed" && !prog.Target.QuietSet {
+		// (not one frame / line: the error reply to a failed binary get carries opaque 0 - the
+		// code says so itself - and is therefore counted, not attributed)
+		if obs.Replies == 0 {
+			res.Bad = "the faulted request is never answered: no terminator, no error reply, no close (only the request sent after it is answered)"
+			return res
+		}
+	}
 	// acknowledgement of the target
 	ack := "unknown"
 	switch {
@@ -548,6 +559,9 @@ func checkC10(tier, replay string) int {
 		cfgs = append(cfgs, harness.ProxyCfg{L1Kind: kind}, harness.ProxyCfg{L2: true, L1Kind: kind})
 	}
 	cfgs = append(cfgs, harness.ProxyCfg{L2: true, L1Kind: "std", Locked: true, MultiReader: true})
+	// the batching pool as L1: error statuses only (what a lost pool connection does to the
+	// callers is C13's subject)
+	cfgs = append(cfgs, harness.ProxyCfg{L1Kind: "batched"}, harness.ProxyCfg{L2: true, L1Kind: "batched"})
 	if run.Thorough() {
 		cfgs = append(cfgs, harness.ProxyCfg{L2: true, L1Kind: "chunked", Locked: true}, harness.ProxyCfg{L1Kind: "std", Locked: true})
 	}
@@ -611,6 +625,9 @@ func checkC10(tier, replay string) int {
 						for _, flt := range c10FaultKinds(!run.Thorough(), len(prog.Target.Value)) {
 							if flt.Kind == fakemc.FaultStatus && idx-1 < len(dry.Ops[tierN-1]) && !statusPlausible(dry.Ops[tierN-1][idx-1], flt.Status) {
 								run.Count("status_faults_skipped_as_implausible_for_the_opcode", 1)
+								continue
+							}
+							if jb.cfg.L1Kind == "batched" && tierN == 1 && flt.Kind != fakemc.FaultStatus {
 								continue
 							}
 							if atomic.LoadInt32(&hangs) >= 8 {
